@@ -92,6 +92,11 @@ impl super::Selector<Interest, Event, Events> for Poller {
     }
 
     fn do_select(&self, events: &mut Events, timeout: Option<Duration>) -> std::io::Result<()> {
+        // fault seam: the harness may let one poll fail the way an interrupted epoll_wait does
+        #[cfg(feature = "verif")]
+        if Some(1) == crate::verif::choice("select:poll", 2) {
+            return Err(std::io::Error::from(std::io::ErrorKind::Interrupted));
+        }
         let inner = unsafe { &mut *self.inner.as_ptr() };
         inner.poll(events, timeout)
     }
